@@ -283,6 +283,84 @@ def units(w):
                                                                 havoc_as={"result": lambda it: SElem(z3.Int(it.fresh("result")), "value")})},
                       prepare=K.install, replay=replay_prog))
 
+    # ---- for over maps, objects and strings: the same exit handling and binding, for containers of up to 3 entries
+    #      (symbolic-bounded: the enumeration is a host list comprehension / dict view / index loop outside the loop-contract
+    #      subset; keys, values, characters and the body's behaviour stay symbolic)
+    def s_for_small(kind, n, what):
+        def setup(it):
+            setup_common(it)
+            bound = []
+
+            def on_body(it_, node, env, p):
+                ent = [e for e in env.fields["map"].entries if e[0] == "x"]
+                bound.append(ent[0][1] if ent else None)
+            body = K.node("body", on_eval=on_body)
+            keys = [SElem(z3.Int(f"key{i}"), "value") for i in range(n)]
+            vs = [SElem(z3.Int(f"val{i}"), "value") for i in range(n)]
+            for i in range(n):
+                for j in range(i):
+                    it.assume(keys[i].z != keys[j].z)
+            chars = None
+            if kind == "map":
+                coll = V.map_of(it, list(zip(keys, vs)), "coll")
+                w.hooks["sorted"] = lambda it_, its, src, n_: PList(list(keys))      # keys in ascending order (C07)
+            elif kind == "object":
+                skeys = [f"k{i}" for i in range(n)]
+                coll = V.object_of(it, list(zip(skeys, vs)), "coll")
+                keys = skeys
+            else:
+                sv = SStr(z3.String("text"))
+                it.assume(z3.Length(sv.z) == n)
+                coll = V._mk("ValueString", {"value": sv}, "coll")
+                chars = sv
+            node = mk("NodeFor", identifiers=PList(["x"]), expression=mk("NodeLiteral", value=coll), block=body, what=what)
+            env = env_obj(it, {"other": V.TRUE})
+            return [node, env], {}, {"keys": keys, "vals": vs, "bound": bound, "chars": chars, "env": env}
+        return setup
+
+    def p_for_small(kind, n, what):
+        def post(it, c, o):
+            bound, keys, vs = c["bound"], c["keys"], c["vals"]
+            p = len(bound)
+            it.check("post:at-most-one-body-evaluation-per-entry", p <= n and bool(z3.is_true(z3.simplify(z3.Length(trace(it)) == p))))
+            for i, b in enumerate(bound):
+                if kind == "string":
+                    ok = cls_name(b) == "ValueString"
+                    it.check(f"post:iteration-{i}-binds-the-character-at-{i}", zs(b.fields["value"]) == z3.SubString(c["chars"].z, i, 1) if ok else False)
+                elif what == "keys":
+                    if kind == "object":
+                        it.check(f"post:iteration-{i}-binds-key-{i}", cls_name(b) == "ValueString" and b.fields["value"] == keys[i])
+                    else:
+                        it.check(f"post:iteration-{i}-binds-key-{i} (ascending)", b is keys[i])
+                elif what == "entries":
+                    ok = cls_name(b) == "ValueList" and not b.fields["value"].is_sym() and len(b.fields["value"].items) == 2
+                    if ok:
+                        k_, v_ = b.fields["value"].items
+                        ok = (k_ is keys[i] if kind == "map" else cls_name(k_) == "ValueString" and k_.fields["value"] == keys[i]) and v_ is vs[i]
+                    it.check(f"post:iteration-{i}-binds-[key, value]-of-entry-{i}", ok)
+                else:
+                    it.check(f"post:iteration-{i}-binds-the-value-of-entry-{i}", b is vs[i])
+            if o.kind == "return":
+                r = val_id(o.value, V)
+                last = VAL(z3.IntVal(p - 1)) if p else None
+                it.check("post:stops-early-only-on-break-or-return", True if p == n else z3.Or(KIND(last) == K_BREAK, KIND(last) == K_RETURN) if p else False)
+                it.check("post:break-consumed-return-passed-through-continue-never-escapes", z3.And(
+                    KIND(r) != K_BREAK, KIND(r) != K_CONTINUE,
+                    z3.Implies(KIND(r) == K_RETURN, r == last) if p else KIND(r) != K_RETURN,
+                    z3.Implies(KIND(last) == K_RETURN, r == last) if p else True) if r is not None else False)
+                for q in range(p - 1):
+                    it.check(f"post:the-loop-continued-after-iteration-{q}-only-on-a-plain-or-continue-value",
+                             z3.And(KIND(VAL(z3.IntVal(q))) != K_BREAK, KIND(VAL(z3.IntVal(q))) != K_RETURN))
+            else:
+                it.check("raises:only-a-body-error-propagated-unchanged", errs_ok(it, o))
+        return post
+    for kind, whats in (("map", (None, "keys", "values", "entries")), ("object", (None, "keys", "values", "entries")), ("string", (None,))):
+        for what in whats:
+            for n in (0, 1, 2, 3):
+                U.append(Unit("nodes.py::NodeFor.evaluate", s_for_small(kind, n, what), p_for_small(kind, n, what),
+                              name=f"nodes.py::NodeFor.evaluate[{kind}, {what or 'default'}, {n} entries]", prepare=K.install, replay=replay_prog,
+                              bounded="containers of <= 3 entries"))
+
     # ================================================================== function call: unwrap return, reject stray break/continue
     def s_lambda(it):
         setup_common(it)
@@ -487,6 +565,49 @@ def programs(tier):
                 if not done:
                     r.append(100 + i)
             out.append((src, f"[{res}, [{', '.join(map(str, r))}]]"))
+    # every exit kind at every element position of every iterable kind, followed by statements after the loop
+    iterables = [("[10, 20, 30]", ["10", "20", "30"]), ("<<30, 10, 20>>", ["10", "20", "30"]), ("'abc'", ["'a'", "'b'", "'c'"]),
+                 ("<<<2 => 'y', 1 => 'x', 3 => 'z'>>>", ["'x'", "'y'", "'z'"]), ("keys <<<2 => 'y', 1 => 'x', 3 => 'z'>>>", ["1", "2", "3"]),
+                 ("values <<<2 => 'y', 1 => 'x', 3 => 'z'>>>", ["'x'", "'y'", "'z'"]),
+                 ("entries <<<2 => 'y', 1 => 'x', 3 => 'z'>>>", ["[1, 'x']", "[2, 'y']", "[3, 'z']"]),
+                 ("keys <*a = 1, b = 2, c = 3*>", ["'a'", "'b'", "'c'"]), ("values <*a = 1, b = 2, c = 3*>", ["1", "2", "3"]), ("<*a = 1, b = 2, c = 3*>", ["1", "2", "3"])]
+    for coll, elems in iterables:
+        for exit_stmt in ("break", "continue", "return 99"):
+            for pos in range(len(elems)):
+                src = (f"def r = []; def f() do for outer in [1, 2] do for x in {coll} do append(r, x); if x == {elems[pos]} then {exit_stmt}; append(r, 'after-if') end; "
+                       f"append(r, 'after-loop') end; 7 end; [f(), r]")
+                r, res, done = [], "7", False
+                for _outer in (1, 2):
+                    for i, e in enumerate(elems):
+                        r.append(e)
+                        if i == pos:
+                            if exit_stmt == "break":
+                                break
+                            if exit_stmt == "continue":
+                                continue
+                            res, done = "99", True
+                            break
+                        r.append("'after-if'")
+                    if done:
+                        break
+                    r.append("'after-loop'")
+                out.append((src, f"[{res}, [{', '.join(r)}]]"))
+    # while: continue/break in the iteration that makes the condition false; the condition is re-tested before every iteration
+    for limit in range(0, 6):
+        for exit_stmt in ("break", "continue"):
+            src = (f"def seen = []; def tests = 0; def i = 0; while (do tests += 1; i < {limit} end) do i += 1; if i % 2 == 1 then {exit_stmt}; append(seen, i) end; [seen, tests, i]")
+            seen, tests, i = [], 0, 0
+            while True:
+                tests += 1
+                if not i < limit:
+                    break
+                i += 1
+                if i % 2 == 1:
+                    if exit_stmt == "break":
+                        break
+                    continue
+                seen.append(i)
+            out.append((src, f"[[{', '.join(map(str, seen))}], {tests}, {i}]"))
     out += [("def n = 0; while n < 5 do n += 1; if n == 3 then break end; n", "3"),
             ("def n = 0; def c = 0; while n < 5 do n += 1; if n % 2 == 0 then continue; c += 1 end; [n, c]", "[5, 3]"),
             ("def t = 0; while (do t += 1; t < 4 end) do 0 end; t", "4"),
